@@ -202,8 +202,13 @@ Inductive auth_mode :=
   | A_unavail       (* *AuthUnavailableError -> 503 *)
   | A_error.        (* any other error -> 500 *)
 
+(* Server.SetExternalLocation: never called / nil; a resolve-only config (present,
+   no Storage backend); a config with a Storage backend *)
+Inductive ext_mode := E_none | E_resolve_only | E_storage.
+Definition is_storage (e : ext_mode) : bool := match e with E_storage => true | _ => false end.
+
 Record config := {
-  c_compress : bool; c_ext : bool; c_maxreq : bool; c_maxresp : bool; c_maxext : bool;
+  c_compress : bool; c_extmode : ext_mode; c_maxreq : bool; c_maxresp : bool; c_maxext : bool;
   c_upload : bool; c_maxupload : bool; c_proof : bool; c_extraproxy : bool; c_introspect : bool;
   c_sticky : bool; c_oauth : bool;
   c_cors : bool; c_notfound : bool; c_prefix : bool;   (* c_prefix: routes under /vgi; no effect *)
@@ -213,7 +218,7 @@ Definition has_auth (a : auth_mode) : bool := match a with A_none => false | _ =
 Definition nonempty {A} (l : list A) : bool := match l with [] => false | _ => true end.
 
 Definition tg (c : config) : toggles :=
-  {| t_compress := c_compress c; t_ext := c_ext c; t_maxreq := c_maxreq c; t_maxresp := c_maxresp c;
+  {| t_compress := c_compress c; t_ext := is_storage (c_extmode c); t_maxreq := c_maxreq c; t_maxresp := c_maxresp c;
      t_maxext := c_maxext c; t_upload := c_upload c; t_maxupload := c_maxupload c; t_proof := c_proof c;
      t_extraproxy := c_extraproxy c; t_introspect := c_introspect c; t_sticky := c_sticky c;
      t_echo := nonempty (c_echo c); t_oauth := c_oauth c; t_auth := has_auth (c_auth c) |}.
@@ -275,9 +280,12 @@ Definition route (c : config) (q : request) : outcome :=
   | Q_session_delete => if c_sticky c then plain 200 else wrong_method c
   end.
 
+(* r_ext: the VGI-Externalization-Enabled value, 0 absent / 1 false / 2 true *)
 Record resp := {
   r_status : N; r_rid : bytes; r_std : list hdr; r_echo : list bytes;
-  r_expose : option (list hdr * list bytes) }.
+  r_expose : option (list hdr * list bytes); r_ext : N }.
+
+Definition ext_code (c : config) : N := if is_storage (c_extmode c) then 2 else 1.
 
 Definition is_big (k : rkind) : bool := match k with Q_unary_big => true | _ => false end.
 Definition is_options (k : rkind) : bool := match k with Q_options => true | _ => false end.
@@ -285,19 +293,19 @@ Definition is_options (k : rkind) : bool := match k with Q_options => true | _ =
 (* ServeHTTP, one request. hook_ok: the serve-start hook has succeeded (now or earlier). *)
 Definition serve_one_gen (expose : toggles -> list hdr) (c : config) (hook_ok : bool) (q : request) : resp :=
   let rid := resolve_request_id (q_rid q) (q_mint q) in
-  if negb hook_ok then {| r_status := 500; r_rid := rid; r_std := [H_rid]; r_echo := []; r_expose := None |}
+  if negb hook_ok then {| r_status := 500; r_rid := rid; r_std := [H_rid]; r_echo := []; r_expose := None; r_ext := 0 |}
   else
     let base := H_rid :: caps (tg c) in
     let ex := if c_cors c then Some (expose (tg c), c_echo c) else None in
     if is_options (q_kind q) then
-      {| r_status := 204; r_rid := rid; r_std := base; r_echo := []; r_expose := ex |}
+      {| r_status := 204; r_rid := rid; r_std := base; r_echo := []; r_expose := ex; r_ext := ext_code c |}
     else if is_big (q_kind q) && c_maxreq c then
-      {| r_status := 413; r_rid := rid; r_std := base; r_echo := []; r_expose := ex |}
+      {| r_status := 413; r_rid := rid; r_std := base; r_echo := []; r_expose := ex; r_ext := ext_code c |}
     else
       let '(st, arr, extra, echo) := route c q in
       let enc := opt (arr && c_compress c && q_accept_zstd q) H_content_encoding in
       {| r_status := st; r_rid := rid; r_std := base ++ extra ++ enc;
-         r_echo := if echo then c_echo c else []; r_expose := ex |}.
+         r_echo := if echo then c_echo c else []; r_expose := ex; r_ext := ext_code c |}.
 
 Definition serve_one := serve_one_gen expose_std.
 
@@ -323,7 +331,8 @@ Record robs := {
   o_status : N;
   o_rid : option bytes;            (* X-Request-ID value, None = header absent *)
   o_present : list bytes;          (* lower-cased tracked header names present *)
-  o_expose : option (list bytes) } (* lower-cased Access-Control-Expose-Headers entries *).
+  o_expose : option (list bytes);  (* lower-cased Access-Control-Expose-Headers entries *)
+  o_ext : N }                      (* VGI-Externalization-Enabled: 0 absent, 1 false, 2 true, 3 anything else *).
 
 Inductive obs := ORid (v : bytes) | OServe (rs : list robs).
 
@@ -332,7 +341,8 @@ Definition names (std : list hdr) (echo : list bytes) : list bytes :=
 
 Definition render (r : resp) : robs :=
   {| o_status := r_status r; o_rid := Some (r_rid r); o_present := names (r_std r) (r_echo r);
-     o_expose := match r_expose r with Some (s, e) => Some (names s e) | None => None end |}.
+     o_expose := match r_expose r with Some (s, e) => Some (names s e) | None => None end;
+     o_ext := r_ext r |}.
 
 Definition model_gen (one : config -> bool -> request -> resp) (i : input) : obs :=
   match i with
@@ -356,7 +366,8 @@ Definition set_eqb (a b : list bytes) : bool := bsubset a b && bsubset b a.
 
 Definition robs_eqb (a b : robs) : bool :=
   N.eqb (o_status a) (o_status b) && opt_eqb beqb (o_rid a) (o_rid b)
-  && set_eqb (o_present a) (o_present b) && opt_eqb set_eqb (o_expose a) (o_expose b).
+  && set_eqb (o_present a) (o_present b) && opt_eqb set_eqb (o_expose a) (o_expose b)
+  && N.eqb (o_ext a) (o_ext b).
 
 Definition obs_eqb (a b : obs) : bool :=
   match a, b with
@@ -381,6 +392,7 @@ Definition resp_ok (c : config) (hook_ok : bool) (q : request) (o : robs) : bool
         && (if c_cors c then
               match o_expose o with Some ex => bsubset (o_present o) ex | None => false end
             else true)
+        && N.eqb (o_ext o) (ext_code c)   (* "true" iff a Storage backend is configured, else "false": never absent *)
       else true).
 
 Fixpoint seq_ok (c : config) (nfail : nat) (qs : list request) (os : list robs) : bool :=
